@@ -71,6 +71,7 @@ func main() {
 	fmt.Println("].")
 	vars := sharedState(repo)
 	aliasing(repo, vars)
+	buffers(repo)
 }
 
 // the custom modules (x/evm, x/inflation, x/oracle, x/epochs, x/sudo, x/tokenfactory, x/devgas) whose keepers are singletons shared by block execution and requests
@@ -595,6 +596,353 @@ func aliasing(repo string, pkgVars map[string]bool) {
 	}
 	pr("receiver-overwriting big-number arithmetic on a receiver that is not certainly fresh", "inplace_sites", inplace)
 	pr("functions returning a package-level variable of x/evm itself (not a copy)", "var_aliases", aliases)
+}
+
+// helperDir: CLI, test-helper and simulation directories (not on the node's execution paths).  Unlike artefactDir it keeps
+// x/evm/embeds: the embedded byte codes are package-level slices that block execution and requests both read.
+func helperDir(dir string) bool {
+	for _, suf := range []string{"/evmtest", "/cli", "/client/cli", "/simulation", "/testutil", "/fixture", "/integration", "/mocks", "/precompile/test"} {
+		if strings.HasSuffix(dir, suf) || strings.Contains(dir, suf+"/") {
+			return true
+		}
+	}
+	return false
+}
+
+const nibiruMod = "github.com/NibiruChain/nibiru/v2/"
+
+// buffers prints two inventories over the non-test, non-generated code of the custom modules, app and eth (x/evm/embeds
+// included):
+//
+//	buffer_sites   every write through a slice / index expression whose BASE is shared: `append(base, …)` (writes into the
+//	               backing array whenever cap(base) > len(base); kind append-resliced when the base is itself a slice
+//	               expression `x[:n]`), `base[i] = v` / `base[i]++`, `copy(base…, …)`, where the
+//	               root of base is a package-level variable of the same package, a package-level variable of another nibiru
+//	               package (`embeds.X.Bytecode`), or a field reached from the receiver of a method of a keeper / precompile
+//	               singleton.  (kind, base, slot = last field or variable name of the base)
+//	slice_origins  how the slots that are appended to are materialised: every assignment / composite-literal entry /
+//	               initialiser of a field or variable with that name, with the callee of the right-hand side written with
+//	               its import path (`github.com/ethereum/go-ethereum/common.FromHex`)
+func buffers(repo string) {
+	type pfile struct {
+		dir string
+		fl  File
+	}
+	var files []pfile
+	pkgVars := map[string]map[string]bool{} // dir -> names
+	for _, top := range append(append([]string{}, moduleRoots...), "app", "eth") {
+		filepath.WalkDir(filepath.Join(repo, top), func(p string, d os.DirEntry, err error) error {
+			if err != nil || !d.IsDir() {
+				return nil
+			}
+			dir := strings.TrimPrefix(p, repo+"/")
+			if helperDir(dir) {
+				return nil
+			}
+			for _, fl := range ParseDir(p) {
+				if strings.Contains(filepath.Base(fl.Path), ".pb.") {
+					continue
+				}
+				files = append(files, pfile{dir, fl})
+				for _, decl := range fl.F.Decls {
+					if gd, ok := decl.(*ast.GenDecl); ok && gd.Tok == token.VAR {
+						for _, sp := range gd.Specs {
+							for _, n := range sp.(*ast.ValueSpec).Names {
+								if pkgVars[dir] == nil {
+									pkgVars[dir] = map[string]bool{}
+								}
+								pkgVars[dir][n.Name] = true
+							}
+						}
+					}
+				}
+			}
+			return nil
+		})
+	}
+	// receiver types whose values are process-wide singletons
+	singleton := func(dir, typ string) bool {
+		if typ == "Keeper" || typ == "NibiruBankKeeper" || typ == "EvmState" || typ == "FunTokenState" || typ == "StoreAPI" {
+			return strings.HasSuffix(dir, "/keeper")
+		}
+		return dir == "x/evm/precompile" && strings.HasPrefix(typ, "precompile")
+	}
+	imports := func(f *ast.File) map[string]string { // local name -> import path
+		m := map[string]string{}
+		for _, im := range f.Imports {
+			path := strings.Trim(im.Path.Value, `"`)
+			name := path[strings.LastIndex(path, "/")+1:]
+			if im.Name != nil {
+				name = im.Name.Name
+			}
+			m[name] = path
+		}
+		return m
+	}
+	type site struct{ dir, fn, kind, base, slot string }
+	var sites []site
+	type origin struct{ dir, fn, lhs, callee, slot string }
+	var origins []origin
+	for _, pf := range files {
+		imp := imports(pf.fl.F)
+		for _, decl := range pf.fl.F.Decls {
+			fd, ok := decl.(*ast.FuncDecl)
+			if !ok || fd.Body == nil || fd.Name.Name == "init" {
+				continue
+			}
+			locals := map[string]bool{}
+			recvName, recvType := "", ""
+			addFields := func(fl *ast.FieldList) {
+				if fl == nil {
+					return
+				}
+				for _, f := range fl.List {
+					for _, n := range f.Names {
+						locals[n.Name] = true
+					}
+				}
+			}
+			addFields(fd.Type.Params)
+			addFields(fd.Type.Results)
+			if fd.Recv != nil && len(fd.Recv.List) == 1 {
+				addFields(fd.Recv)
+				if len(fd.Recv.List[0].Names) == 1 {
+					recvName = fd.Recv.List[0].Names[0].Name
+				}
+				t := fd.Recv.List[0].Type
+				if st, ok := t.(*ast.StarExpr); ok {
+					t = st.X
+				}
+				if id, ok := t.(*ast.Ident); ok {
+					recvType = id.Name
+				}
+			}
+			ast.Inspect(fd.Body, func(n ast.Node) bool {
+				switch a := n.(type) {
+				case *ast.AssignStmt:
+					if a.Tok == token.DEFINE {
+						for _, l := range a.Lhs {
+							if id, ok := l.(*ast.Ident); ok {
+								locals[id.Name] = true
+							}
+						}
+					}
+				case *ast.ValueSpec:
+					for _, id := range a.Names {
+						locals[id.Name] = true
+					}
+				case *ast.RangeStmt:
+					if a.Tok == token.DEFINE {
+						for _, e := range []ast.Expr{a.Key, a.Value} {
+							if id, ok := e.(*ast.Ident); ok {
+								locals[id.Name] = true
+							}
+						}
+					}
+				}
+				return true
+			})
+			// shared: (is the base rooted in shared state, slot name)
+			shared := func(e ast.Expr) (bool, string) {
+				var sels []string
+				for {
+					switch x := e.(type) {
+					case *ast.SelectorExpr:
+						sels = append([]string{x.Sel.Name}, sels...)
+						e = x.X
+						continue
+					case *ast.IndexExpr:
+						e = x.X
+						continue
+					case *ast.SliceExpr:
+						e = x.X
+						continue
+					case *ast.ParenExpr:
+						e = x.X
+						continue
+					case *ast.StarExpr:
+						e = x.X
+						continue
+					}
+					break
+				}
+				id, ok := e.(*ast.Ident)
+				if !ok {
+					return false, "" // rooted in a call / literal: a value of this call
+				}
+				slot := id.Name
+				if len(sels) > 0 {
+					slot = sels[len(sels)-1]
+				}
+				if locals[id.Name] {
+					if id.Name == recvName && len(sels) > 0 && singleton(pf.dir, recvType) {
+						return true, slot
+					}
+					return false, ""
+				}
+				if pkgVars[pf.dir][id.Name] {
+					return true, slot
+				}
+				if path, ok := imp[id.Name]; ok && strings.HasPrefix(path, nibiruMod) && len(sels) > 0 {
+					if pkgVars[strings.TrimPrefix(path, nibiruMod)][sels[0]] {
+						return true, slot
+					}
+				}
+				return false, ""
+			}
+			add := func(kind string, base ast.Expr) {
+				if ok, slot := shared(base); ok {
+					sites = append(sites, site{pf.dir, fd.Name.Name, kind, Nospace(base), slot})
+				}
+			}
+			ast.Inspect(fd.Body, func(n ast.Node) bool {
+				switch x := n.(type) {
+				case *ast.CallExpr:
+					if id, ok := x.Fun.(*ast.Ident); ok && len(x.Args) > 0 && !locals[id.Name] {
+						switch id.Name {
+						case "append":
+							kind, base := "append", x.Args[0]
+							if b, ok := base.(*ast.ParenExpr); ok {
+								base = b.X
+							}
+							if _, ok := base.(*ast.SliceExpr); ok {
+								kind = "append-resliced" // base[:n]: capacity beyond the new length by construction
+							}
+							add(kind, base)
+						case "copy":
+							add("copy-dst", x.Args[0])
+						}
+					}
+				case *ast.AssignStmt:
+					if x.Tok != token.DEFINE {
+						for _, l := range x.Lhs {
+							if ie, ok := l.(*ast.IndexExpr); ok {
+								add("index-write", ie.X)
+							}
+						}
+					}
+				case *ast.IncDecStmt:
+					if ie, ok := x.X.(*ast.IndexExpr); ok {
+						add("index-write", ie.X)
+					}
+				}
+				return true
+			})
+		}
+	}
+	slots := map[string]bool{}
+	for _, s := range sites {
+		if strings.HasPrefix(s.kind, "append") {
+			slots[s.slot] = true
+		}
+	}
+	calleeOf := func(imp map[string]string, dir string, e ast.Expr) string {
+		ce, ok := e.(*ast.CallExpr)
+		if !ok {
+			return "expr:" + Nospace(e)
+		}
+		switch f := ce.Fun.(type) {
+		case *ast.Ident:
+			if f.Name == "make" || f.Name == "append" || f.Name == "new" {
+				return fmt.Sprintf("%s/%d", f.Name, len(ce.Args)) // make/2 allocates cap = len, make/3 names a capacity
+			}
+			return dir + "." + f.Name
+		case *ast.SelectorExpr:
+			if id, ok := f.X.(*ast.Ident); ok {
+				if path, ok := imp[id.Name]; ok {
+					return path + "." + f.Sel.Name
+				}
+			}
+		}
+		return "expr:" + Nospace(ce.Fun)
+	}
+	for _, pf := range files {
+		imp := imports(pf.fl.F)
+		for _, decl := range pf.fl.F.Decls {
+			switch d := decl.(type) {
+			case *ast.GenDecl:
+				if d.Tok != token.VAR {
+					continue
+				}
+				ast.Inspect(d, func(n ast.Node) bool {
+					switch x := n.(type) {
+					case *ast.ValueSpec:
+						for i, nm := range x.Names {
+							if slots[nm.Name] && i < len(x.Values) {
+								origins = append(origins, origin{pf.dir, "<var>", nm.Name, calleeOf(imp, pf.dir, x.Values[i]), nm.Name})
+							}
+						}
+					case *ast.KeyValueExpr:
+						if id, ok := x.Key.(*ast.Ident); ok && slots[id.Name] {
+							origins = append(origins, origin{pf.dir, "<var>", id.Name, calleeOf(imp, pf.dir, x.Value), id.Name})
+						}
+					}
+					return true
+				})
+			case *ast.FuncDecl:
+				if d.Body == nil {
+					continue
+				}
+				ast.Inspect(d.Body, func(n ast.Node) bool {
+					switch x := n.(type) {
+					case *ast.AssignStmt:
+						for i, l := range x.Lhs {
+							name := ""
+							switch le := l.(type) {
+							case *ast.SelectorExpr:
+								name = le.Sel.Name
+							case *ast.Ident:
+								if pkgVars[pf.dir][le.Name] && x.Tok != token.DEFINE {
+									name = le.Name
+								}
+							}
+							if name == "" || !slots[name] {
+								continue
+							}
+							rhs := x.Rhs[0]
+							if len(x.Rhs) == len(x.Lhs) {
+								rhs = x.Rhs[i]
+							}
+							origins = append(origins, origin{pf.dir, d.Name.Name, Nospace(l), calleeOf(imp, pf.dir, rhs), name})
+						}
+					case *ast.KeyValueExpr:
+						if id, ok := x.Key.(*ast.Ident); ok && slots[id.Name] {
+							origins = append(origins, origin{pf.dir, d.Name.Name, id.Name, calleeOf(imp, pf.dir, x.Value), id.Name})
+						}
+					}
+					return true
+				})
+			}
+		}
+	}
+	sort.Slice(sites, func(i, j int) bool {
+		a, b := sites[i], sites[j]
+		return a.dir+"|"+a.fn+"|"+a.kind+"|"+a.base < b.dir+"|"+b.fn+"|"+b.kind+"|"+b.base
+	})
+	sort.Slice(origins, func(i, j int) bool {
+		a, b := origins[i], origins[j]
+		return a.dir+"|"+a.fn+"|"+a.lhs+"|"+a.callee < b.dir+"|"+b.fn+"|"+b.lhs+"|"+b.callee
+	})
+	fmt.Println("(* writes through a slice / index expression whose base is a package-level variable or a field of a singleton: (directory, function, kind, base, slot) *)")
+	fmt.Println("Definition buffer_sites : list (string * string * string * string * string) := [")
+	for i, s := range sites {
+		sep := ";"
+		if i == len(sites)-1 {
+			sep = ""
+		}
+		fmt.Printf("  (%s, %s, %s, %s, %s)%s\n", CoqString(s.dir), CoqString(s.fn), CoqString(s.kind), CoqString(s.base), CoqString(s.slot), sep)
+	}
+	fmt.Println("].")
+	fmt.Println("(* how the appended-to slots are materialised: (directory, function, left-hand side, callee of the right-hand side, slot) *)")
+	fmt.Println("Definition slice_origins : list (string * string * string * string * string) := [")
+	for i, o := range origins {
+		sep := ";"
+		if i == len(origins)-1 {
+			sep = ""
+		}
+		fmt.Printf("  (%s, %s, %s, %s, %s)%s\n", CoqString(o.dir), CoqString(o.fn), CoqString(o.lhs), CoqString(o.callee), CoqString(o.slot), sep)
+	}
+	fmt.Println("].")
 }
 
 // receiver name when fd is a method of NibiruBankKeeper
